@@ -181,6 +181,9 @@ def c02(ctx, replay):
     st = epoch_traces(ctx, replay, "C02")
     ctx.nontrivial = st.get("epochs-multi-species", 0)
     quota_size_cases(ctx, replay, "C02")
+    if replay is None or any(v.get("replay", {}).get("kind") == "x10" for v in replay.get("violations", [])):
+        import pipe_grow_x10
+        pipe_grow_x10.reproduce_traces(ctx, replay, "C02")
 
 
 @pipeline("C10")
@@ -201,6 +204,9 @@ def c10(ctx, replay):
     # organisms with pairwise different weights: a species whose quota exceeds 5 must leave an unmodified copy of (one of) its
     # fittest organism(s)
     quota_size_cases(ctx, replay, "C10", pattern=r"champion:")
+    if replay is None or any(v.get("replay", {}).get("kind") == "x10" for v in replay.get("violations", [])):
+        import pipe_grow_x10
+        pipe_grow_x10.reproduce_traces(ctx, replay, "C10")
 
 
 _NOTE = ("Trace validation of seeded scenarios (quick: 63 scenarios x 12-14 epochs, population 3..30; thorough: 378 scenarios x up to 30 "
